@@ -7,6 +7,27 @@ def main(tier):
     v = Verdict("C10", tier)
     ev = dict(tlc=[])
     run_reader_check(v, "C10", tier, {"list", "open", "read", "drop", "hash"}, ev)
+    # ACCESS PATTERN at production constants: 1 200 small files (mail-like text, random bytes), every other one read, then
+    # some backwards, then some again; each result compared with a reader opened for that file alone
+    import json as _j
+    import os as _os
+    from concurrent.futures import ThreadPoolExecutor
+    wd = workdir("c10-skipscan")
+    build("prod")
+    stacks = ["comp+enc", "comp"] if tier == "quick" else ["comp+enc", "comp", "enc", "raw"]
+
+    def ss(st):
+        op = _os.path.join(wd, f"ss-{st.replace('+', '_')}.json")
+        mbt("prod", "skipscan", op, "1200" if tier == "quick" else "2600", st, timeout=7200)
+        return _j.load(open(op))
+    with ThreadPoolExecutor(max_workers=4) as ex:
+        souts = list(ex.map(ss, stacks))
+    ev["skipscan_reads"] = sum(o["reads"] for o in souts)
+    for o in souts:
+        for viol in o["violations"]:
+            v.violation(dict(check="skip-scan", kind=viol["kind"], stack=viol["stack"], entropy=viol["entropy"]),
+                        dict(engine="skipscan", profile="prod", detail=viol))
+    log(f"[C10] skip-scan at production constants: {ev['skipscan_reads']} file reads over {stacks}")
     return v.finish("model_checking", coverage(ev, v,
         "complete reachable graph of the FileReader model (every history of list/open/read(n)/drop/hash/linear over "
         "interleaved multi-chunk archives, buffer sizes {0,1,2,3,5,7,>file}) replayed edge by edge on the real "
